@@ -20,7 +20,7 @@ RULE = (
     "per-target (n_in, n_out, mtime order pattern, record state, verdict)."
 )
 ASSUMPTIONS = [
-    "mtimes differ by >= 10 s or are exactly equal; symbolic links only for source files (the data's timestamp counts)",
+    "mtimes lie on a grid of 10 s, 250 ms or 2 ms (so several distinct stamps fall inside one second) or are exactly equal; symbolic links only for source files (the data's timestamp counts)",
     "cli lane: simulated Slurm (simbin) stands in for the scheduler",
 ]
 
@@ -57,6 +57,8 @@ def gen_case(rng, idx, tier):
     # some source files are symbolic links to data kept outside the project; the link's own timestamp differs
     symlinks = {s: rng.choice([0, 3]) for s in dag["sources"] if rng.random() < 0.2}
     return {
+        # scale of the mtime grid: 10 s, 250 ms (several stamps inside one second) or 2 ms
+        "tick_ns": rng.choice([10_000_000_000, 10_000_000_000, 250_000_000, 2_000_000]),
         "symlinks": symlinks,
         "lane": lane,
         "dag": dag,
@@ -143,6 +145,7 @@ def classify(case, tname, variant_targets):
 
 
 def materialise(case, proj, variant):
+    proj.tick_ns = case.get("tick_ns", proj.tick_ns)
     for f, tk in case["ticks"].items():
         if f in case.get("symlinks", {}) and tk is not None:
             proj.set_file(f, tk, symlink=True, link_tick=case["symlinks"][f])
@@ -244,3 +247,41 @@ def run_cli(case, proj, st, res):
         for n in extra:
             mech = classify(case, n, variant)
         res.violation(mech, "gwf run submitted %s, expected %s" % (names, want), variant=variant, status=st)
+        return
+    if case["hashing"]:
+        # "unchanged since it was last SUBMITTED": drain the jobs, edit one script, let the scheduler reject
+        # that submission, then the target must still be reported shouldrun
+        import random as _r
+
+        from .. import scenario
+
+        rr = _r.Random(case["shape_seeds"][0])
+        mts = [dict(t, wd=proj.root) for t in case["dag"]["targets"]]
+        by = {t["name"]: t for t in mts}
+        for _ in range(100):
+            run_, act = sorted(sim.runnable()), sorted(sim.running())
+            if not run_ and not act:
+                break
+            for j in run_:
+                sim.start(j)
+            for j in sorted(sim.running()):
+                scenario.create_outputs(by[sim.jobs()[j]["name"]])
+                sim.finish(j, 0)
+        cand = [t for t in variant if by[t["name"]]["outs"]]
+        if not cand or sim.pending():
+            return
+        victim = rr.choice(cand)
+        victim["spec"] = victim["spec"] + "echo edited\n"
+        proj.write_workflow(gen.render_workflow(variant))
+        r3 = cli.gwf(proj.root, ["status"], env)
+        if dict(cli.parse_status(r3.out)).get(victim["name"]) != "shouldrun":
+            res.violation("status-mismatch", "hashing on: %s has an edited script but is shown as %s" % (victim["name"], dict(cli.parse_status(r3.out)).get(victim["name"])))
+            return
+        sim.set_faults([{"cmd": "sbatch", "nth": 1, "kind": rr.choice(["exit1", "stderr_error", "garbage"])}])
+        cli.gwf(proj.root, ["run", victim["name"]], env)
+        sim.set_faults([])
+        r4 = cli.gwf(proj.root, ["status"], env)
+        res.mon("rejected_submission_checked")
+        got4 = dict(cli.parse_status(r4.out)).get(victim["name"])
+        if r4.rc != 0 or got4 != "shouldrun":
+            res.violation("completed-after-rejected-submission", "hashing on: the edited script of %s was never accepted by the scheduler (submission rejected) but the target is shown as %s" % (victim["name"], got4))
